@@ -105,6 +105,7 @@ bool DepsLog::RecordDeps(Node* node, TimeStamp mtime, int node_count,
   if (!made_change)
     return true;
 
+  NINJA_VERIF_POINT("deps.record.pre");
   // Update on-disk representation.
   unsigned size = 4 * (1 + 2 + node_count);
   if (size > kMaxRecordSize) {
@@ -363,6 +364,7 @@ bool DepsLog::Recompact(const string& path, string* err) {
   deps_.swap(new_log.deps_);
   nodes_.swap(new_log.nodes_);
 
+  NINJA_VERIF_POINT("deps.recompact.pre_replace");
   return ReplaceContent(path, temp_path, err);
 }
 
